@@ -85,6 +85,20 @@ theorem bad_version_rejected (b : UInt8) (rest : Bytes) (h : b.toNat ≠ 1) : un
   have hb : unbe [b] = b.toNat := by simp [unbe]
   simp [hb, h]
 
+/-- **Decode histories.**  Decoding is a function of the bytes handed over and of nothing else: whatever run of strings was decoded
+before (the list `earlier` — e.g. what the caller's read buffer held previously), the encoding of an in-domain VAA `v` decodes to `v`;
+and two in-domain VAAs whose encodings have the same length (a reused buffer) but differ anywhere decode to different values. -/
+theorem decode_sequence (earlier : List Bytes) (v : Vaa) (h : v.WF) :
+    ((earlier ++ [marshal v]).map unmarshal).getLast? = some (some v) := by
+  simp [decode_encode v h]
+
+theorem reused_buffer_distinct (a b : Vaa) (ha : a.WF) (hb : b.WF) (hne : a ≠ b) :
+    unmarshal (marshal a) = some a ∧ unmarshal (marshal b) = some b ∧ marshal a ≠ marshal b := by
+  refine ⟨decode_encode a ha, decode_encode b hb, fun he => hne ?_⟩
+  have := decode_encode a ha
+  rw [he, decode_encode b hb] at this
+  exact (Option.some.inj this).symm
+
 /-- Non-vacuity: a concrete 1001-byte payload VAA with two signatures is in the domain and round-trips
 (the length at which the unrepaired decoder truncated). -/
 def sample : Vaa :=
@@ -96,5 +110,14 @@ def sample : Vaa :=
 
 example : sample.WF := by decide
 example : unmarshal (marshal sample) = some sample := decode_encode _ (by decide)
+-- the same message with the next sequence number: same length, another value
+private def small (seq : Nat) : Vaa :=
+  { version := 1, gsIndex := 0, sigs := [⟨1, List.replicate 65 3⟩],
+    body := { ts := 5, nonce := 1, emitterChain := 255, targetChain := 2, emitter := List.replicate 32 1, sequence := seq,
+              consistency := 1, payload := [7, 8] } }
+example : (small 41).WF ∧ (small 42).WF := by decide
+example : small 41 ≠ small 42 := by simp [small]
+example : (marshal (small 41)).length = (marshal (small 42)).length := by
+  simp [marshal, small, sigsBytes, serializeBody, be_length]
 
 end Whv.C05
